@@ -147,6 +147,10 @@ where
     let mut state = self.state.lock();
     if !state.protected.contains(key) && !state.probationary.contains(key) {
       state.probationary.push_front(key.clone(), cost);
+    } else {
+      // re-admission: the entry was replaced, record its new cost (position unchanged)
+      state.probationary.set_cost(key, cost);
+      state.protected.set_cost(key, cost);
     }
     AdmissionDecision::Admit
   }
